@@ -485,6 +485,9 @@ func c18Pool(seed int64) [][]byte {
 		pool = append(pool, []byte(s))
 	}
 	pool = append(pool, []byte("null"), []byte("true"), []byte(" false "), []byte(""), []byte("   "))
+	// exactly at the depth limit: per-call state that leaks through a process-wide pool shifts the
+	// limit for whoever gets the pooled object next (seeded change C18r8-m1)
+	pool = append(pool, workload.BuildNest([]int{0}, 10000, "0", 10000), workload.BuildNest([]int{2, 0}, 10000, "", 10000), []byte(" null "))
 	for _, d := range []int{30, 300, 2500, 9000} { // 9000: resource guards that count nesting process-wide add up across goroutines (C18r6-m2)
 		pool = append(pool, workload.BuildNest([]int{0, 2}, d, "0", d), workload.BuildNest([]int{1, 3}, d, `"s"`, d/2))
 	}
